@@ -142,6 +142,7 @@ class Calibrator:
     Calibrator = namedtuple("Calibrator", fields)
     default_coeffs = None
     default_file = None
+    default_file_digest = None
     default_version = None
 
     def __new__(cls, spacecraft, custom_coeffs=None, coeffs_file=None):
@@ -159,10 +160,13 @@ class Calibrator:
             The coefficients in coeffs_file serve as default values if no custom_coeffs
             are given. If omitted, Calibrator uses the PyGAC internal defaults.
         """
-        if cls.default_coeffs is None or cls.default_file != coeffs_file:
+        file_digest = cls._file_digest(coeffs_file)
+        if (cls.default_coeffs is None or cls.default_file != coeffs_file
+                or cls.default_file_digest != file_digest):
             cls.default_coeffs, cls.default_version = cls.read_coeffs(coeffs_file)
             # remember the file only once it has been read successfully
             cls.default_file = coeffs_file
+            cls.default_file_digest = file_digest
         if custom_coeffs:
             LOG.info('Using following custom coefficients "%s".', custom_coeffs)
         customs = custom_coeffs or {}
@@ -222,6 +226,14 @@ class Calibrator:
         # create namedtuple
         calibrator = cls.Calibrator(**arraycoeffs)
         return calibrator
+
+    @staticmethod
+    def _file_digest(coeffs_file):
+        """Digest of the content of a user supplied coefficients file (None for the internal defaults)."""
+        if not coeffs_file:
+            return None
+        with open(coeffs_file, mode="rb") as json_file:
+            return hashlib.md5(json_file.read()).hexdigest()
 
     @classmethod
     def read_coeffs(cls, coeffs_file):
